@@ -179,13 +179,18 @@ func c06BaseCfg(maxS int64) advCfg {
 // grid around the 3 s boundary.
 func c06Grid(n int) func(yield func(advScenario) bool) {
 	s := int64(time.Second)
-	gaps := []int64{0, 1, 3 * s / 2, 3*s - 1, 3 * s, 3*s + 1, 6 * s}
+	return c06GridOn(n, []int64{0, 1, 3 * s / 2, 3*s - 1, 3 * s, 3*s + 1, 6 * s}, []int64{4, 7}, 1)
+}
+
+// c06GridOn: every history of minLen..n events whose gaps come from the given grid.
+func c06GridOn(n int, gaps, maxes []int64, minLen int) func(yield func(advScenario) bool) {
+	s := int64(time.Second)
 	kinds := []string{"rs::", "rsu", "link"}
 	return func(yield func(advScenario) bool) {
 		var rec func(evs []advEvent, at int64) bool
 		rec = func(evs []advEvent, at int64) bool {
-			if len(evs) > 0 {
-				for _, mx := range []int64{4, 7} {
+			if len(evs) >= minLen {
+				for _, mx := range maxes {
 					sc := advScenario{Cfg: c06BaseCfg(mx), Fwd0: true, Events: append([]advEvent(nil), evs...), StopNS: at + 7*s, Terminate: len(evs)%2 == 0}
 					if !yield(sc) {
 						return false
@@ -279,5 +284,10 @@ func TestVerif_C06(t *testing.T) {
 		n = 4
 	}
 	verifkit.Enumerate(k, t, fmt.Sprintf("grid-histories<=%d-events", n), true, c06Grid(n), prop)
+	if k.Thorough() {
+		// the histories of exactly 5 events on the grid right around the boundary (0, 1 ns, 3 s - 1 ns, 3 s, 3 s + 1 ns)
+		s := int64(time.Second)
+		verifkit.Enumerate(k, t, "grid-histories-of-5-events(boundary-grid)", true, c06GridOn(5, []int64{0, 1, 3*s - 1, 3 * s, 3*s + 1}, []int64{4}, 5), prop)
+	}
 	verifkit.Rapid(k, t, "random-bursty-histories", k.N(2000, 100000), c06Gen, prop)
 }
